@@ -1,4 +1,5 @@
 import LibInj.Proofs.QString
+import LibInj.Proofs.KwFacts
 set_option linter.unusedSimpArgs false
 set_option linter.unusedVariables false
 /-! Totality, progress and faithfulness of the 22 byte-dispatched SQL lexers (C01, C16). -/
@@ -21,51 +22,67 @@ theorem clip_le_31 (n : Nat) : clip n ≤ 31 := by
 /-- token well-formedness: the value has exactly `len` bytes, at most 31 -/
 def TokInv (t : Token) : Prop := t.val.length = t.len ∧ t.len ≤ 31
 
+/-- a class byte assigned to a token of `len` bytes: no token (0) or a documented class; a function
+name has at least two bytes (`fold` reads `val[1]` of an `f` token) -/
+def CatV (cat : UInt8) (len : Nat) : Prop := (cat = 0 ∨ isClassU8 cat = true) ∧ (cat = 102 → 2 ≤ len)
+def CatOK (t : Token) : Prop := CatV t.cat t.len
+/-- a literal class other than `f` -/
+abbrev CatLit (cat : UInt8) : Prop := (cat = 0 ∨ isClassU8 cat = true) ∧ cat ≠ 102
+
+theorem catLit_ok {cat : UInt8} {len : Nat} (h : CatLit cat) : CatV cat len := ⟨h.1, fun h' => absurd h' h.2⟩
+
+macro "cat_lit" : tactic => `(tactic| first | exact catLit_ok (by decide) | assumption)
+
 /-- postcondition of a lexer run on `rest`: it consumes at least one byte and at most `rest`, the
-token is well-formed, lies inside the consumed span, and its value is the input at its offset -/
+token is well-formed, lies inside the consumed span, its value is the input at its offset, and its
+class is a documented one -/
 def LexOK (rest : Bytes) (r : Lex) : Prop :=
   1 ≤ r.next ∧ r.next ≤ rest.length ∧ TokInv r.tok ∧ r.tok.pos + r.tok.len ≤ r.next ∧
-  r.tok.val = (rest.drop r.tok.pos).take r.tok.len
+  r.tok.val = (rest.drop r.tok.pos).take r.tok.len ∧ CatOK r.tok
 
 def Lexes (rest : Bytes) (x : M Lex) : Prop := ∃ r, x = .ok r ∧ LexOK rest r
 
 /-- `assign` of a length that fits into the value, at an offset of `rest` -/
 theorem assign_lex (t : Token) (cat : UInt8) (pos length : Nat) (rest : Bytes) (next : Nat)
     (h1 : pos + length ≤ rest.length) (hn1 : 1 ≤ next) (hn2 : next ≤ rest.length) (hn3 : pos + clip length ≤ next)
-    (k : Token → Lex) (hk : ∀ t', (k t').next = next ∧ (k t').tok.pos = t'.pos ∧ (k t').tok.len = t'.len ∧ (k t').tok.val = t'.val) :
+    (k : Token → Lex) (hk : ∀ t', (k t').next = next ∧ (k t').tok.pos = t'.pos ∧ (k t').tok.len = t'.len ∧ (k t').tok.val = t'.val ∧ (k t').tok.cat = t'.cat)
+    (hcat : CatV cat (clip length)) :
     Lexes rest (do let t' ← assign t cat pos length (rest.drop pos); return k t') := by
   have hc := clip_le length
   rw [assign_ok _ _ _ _ _ (by simp; omega)]
   simp only [bind, Except.bind, pure, Except.pure]
-  obtain ⟨k1, k2, k3, k4⟩ := hk { t with cat := cat, pos := pos, len := clip length, val := (rest.drop pos).take (clip length) }
-  refine ⟨_, rfl, by rw [k1]; exact hn1, by rw [k1]; exact hn2, ⟨by rw [k4, k3]; simp; omega, by rw [k3]; exact clip_le_31 _⟩, by rw [k1, k2, k3]; exact hn3, by rw [k4, k2, k3]⟩
+  obtain ⟨k1, k2, k3, k4, k5⟩ := hk { t with cat := cat, pos := pos, len := clip length, val := (rest.drop pos).take (clip length) }
+  refine ⟨_, rfl, by rw [k1]; exact hn1, by rw [k1]; exact hn2, ⟨by rw [k4, k3]; simp; omega, by rw [k3]; exact clip_le_31 _⟩, by rw [k1, k2, k3]; exact hn3, by rw [k4, k2, k3], ?_⟩
+  unfold CatOK; rw [k5, k3]; exact hcat
 
 theorem parseWhite_ok (rest : Bytes) (h : rest ≠ []) : Lexes rest (parseWhite rest) := by
   have : 1 ≤ rest.length := by cases rest with | nil => exact absurd rfl h | cons _ _ => simp
-  exact ⟨_, rfl, by simp, by simpa using this, ⟨rfl, by simp⟩, by simp, by simp⟩
+  exact ⟨_, rfl, by simp, by simpa using this, ⟨rfl, by simp⟩, by simp, by simp, ⟨Or.inl rfl, fun h => by cases h⟩⟩
 
 theorem clip_one : clip 1 = 1 := by decide
 
 /-- a one-byte token at offset 0 -/
-theorem one_byte_ok (cat : UInt8) (rest : Bytes) (h : rest ≠ []) :
+theorem one_byte_ok (cat : UInt8) (rest : Bytes) (h : rest ≠ []) (hcat : CatV cat (clip 1) := by cat_lit) :
     Lexes rest (do return { tok := ← assign {} cat 0 1 rest, next := 1 }) := by
   have hl : 1 ≤ rest.length := by cases rest with | nil => exact absurd rfl h | cons _ _ => simp
   have := assign_lex {} cat 0 1 rest 1 (by omega) (by omega) hl (by rw [clip_one]; omega) (fun t' => { tok := t', next := 1 })
-    (fun t' => ⟨rfl, rfl, rfl, rfl⟩)
+    (fun t' => ⟨rfl, rfl, rfl, rfl, rfl⟩) hcat
   simpa using this
 
 theorem parseOperator1_ok (rest : Bytes) (h : rest ≠ []) : Lexes rest (parseOperator1 rest) := one_byte_ok 111 rest h
 theorem parseOther_ok (rest : Bytes) (h : rest ≠ []) : Lexes rest (parseOther rest) := one_byte_ok 63 rest h
 
-theorem parseByte_ok (rest : Bytes) (h : rest ≠ []) : Lexes rest (parseByte rest) := by
+theorem parseByte_ok (rest : Bytes) (c : UInt8) (h0 : rest[0]? = some c) (hcl : CatLit c) : Lexes rest (parseByte rest) := by
+  have h : rest ≠ [] := by intro hn; simp [hn] at h0
   have hl : 0 < rest.length := by cases rest with | nil => exact absurd rfl h | cons _ _ => simp
+  have hc0 : rest[0] = c := by simpa [List.getElem?_eq_getElem hl] using h0
   unfold parseByte
-  simp only [at'_ok hl, bind, Except.bind]
-  exact one_byte_ok _ rest h
+  simp only [at'_ok hl, bind, Except.bind, hc0]
+  exact one_byte_ok _ rest h (catLit_ok hcl)
 
 /-- a one-byte token whose value is the constant `[c]`, where `c` is the first input byte -/
 theorem const_byte_ok (cat c : UInt8) (rest : Bytes) (hc : rest[0]? = some c) (extra : Lex → Lex)
-    (he : ∀ r, (extra r).tok = r.tok ∧ (extra r).next = r.next) :
+    (he : ∀ r, (extra r).tok = r.tok ∧ (extra r).next = r.next) (hcat : CatV cat (clip 1) := by cat_lit) :
     Lexes rest (do return extra { tok := ← assign {} cat 0 1 [c], next := 1 }) := by
   have hl : 0 < rest.length := by
     rcases Nat.lt_or_ge 0 rest.length with h | h
@@ -74,7 +91,7 @@ theorem const_byte_ok (cat c : UInt8) (rest : Bytes) (hc : rest[0]? = some c) (e
   rw [assign_ok _ _ _ _ _ (by rw [clip_one]; simp)]
   simp only [bind, Except.bind, pure, Except.pure]
   obtain ⟨e1, e2⟩ := he { tok := { cat := cat, pos := 0, len := clip 1, val := [c].take (clip 1) }, next := 1 }
-  refine ⟨_, rfl, by rw [e2]; simp, by rw [e2]; exact hl, by rw [e1]; simp [TokInv, clip_one], by rw [e1, e2]; simp [clip_one], ?_⟩
+  refine ⟨_, rfl, by rw [e2]; simp, by rw [e2]; exact hl, by rw [e1]; simp [TokInv, clip_one], by rw [e1, e2]; simp [clip_one], ?_, by rw [e1]; exact hcat⟩
   rw [e1]
   simp only [clip_one, List.take_succ_cons, List.take_zero, List.drop_zero]
   cases rest with
@@ -92,7 +109,7 @@ theorem parseEolComment_ok (rest : Bytes) (h : rest ≠ []) (extra : Lex → Lex
     rw [assign_ok _ _ _ _ _ (clip_le _)]
     simp only []
     obtain ⟨e1, e2⟩ := he { tok := { cat := 99, pos := 0, len := clip rest.length, val := rest.take (clip rest.length) }, next := rest.length }
-    refine ⟨_, rfl, by rw [e2]; exact hl, by rw [e2]; simp, by rw [e1]; exact ⟨by have := clip_le rest.length; simp; omega, clip_le_31 _⟩, by rw [e1, e2]; simp; exact clip_le _, by rw [e1]; simp⟩
+    refine ⟨_, rfl, by rw [e2]; exact hl, by rw [e2]; simp, by rw [e1]; exact ⟨by have := clip_le rest.length; simp; omega, clip_le_31 _⟩, by rw [e1, e2]; simp; exact clip_le _, by rw [e1]; simp, by rw [e1]; exact catLit_ok (cat := 99) (by decide)⟩
   | some i =>
     have hlt := indexByte_lt hi
     simp only [bind, Except.bind, pure, Except.pure]
@@ -100,7 +117,7 @@ theorem parseEolComment_ok (rest : Bytes) (h : rest ≠ []) (extra : Lex → Lex
     simp only []
     obtain ⟨e1, e2⟩ := he { tok := { cat := 99, pos := 0, len := clip i, val := rest.take (clip i) }, next := i + 1 }
     have := clip_le i
-    refine ⟨_, rfl, by rw [e2]; simp, by rw [e2]; simp; omega, by rw [e1]; exact ⟨by simp; omega, clip_le_31 _⟩, by rw [e1, e2]; simp; omega, by rw [e1]; simp⟩
+    refine ⟨_, rfl, by rw [e2]; simp, by rw [e2]; simp; omega, by rw [e1]; exact ⟨by simp; omega, clip_le_31 _⟩, by rw [e1, e2]; simp; omega, by rw [e1]; simp, by rw [e1]; exact catLit_ok (cat := 99) (by decide)⟩
 
 set_option maxRecDepth 100000 in
 /-- table fact: no key is empty, so the empty word is never a keyword -/
@@ -129,7 +146,12 @@ theorem splitLoop_ok (rest : Bytes) (t : Token) (ht : t.val.length = t.len) (hl 
           · right
             rw [assign_ok _ _ _ _ _ (by have := clip_le i; omega)]
             have hci : clip i = i := clip_of_lt (by omega)
-            refine ⟨_, rfl, by simp; omega, by simp; omega, ⟨by simp [hci]; omega, by simp; exact clip_le_31 _⟩, by simp [hci], by simp⟩
+            have hw : ((t.val.drop 0).take (i - 0)).length = i := by simp; omega
+            refine ⟨_, rfl, by simp; omega, by simp; omega, ⟨by simp [hci]; omega, by simp; exact clip_le_31 _⟩, by simp [hci], by simp, ?_⟩
+            rcases searchKeyword_cases ((t.val.drop 0).take (i - 0)) with h0 | ⟨hcl, hf, _⟩
+            · simp only [List.drop_zero, Nat.sub_zero] at h0
+              simp [h0] at hch
+            · exact ⟨Or.inr hcl, fun h102 => by have := hf h102; rw [hw] at this; show 2 ≤ clip i; omega⟩
         · exact ih (i + 1)
       · exact ih (i + 1)
     · simp only [hi, ↓reduceIte]
@@ -158,15 +180,25 @@ theorem parseWord_ok (rest : Bytes) (c : UInt8) (h0 : rest[0]? = some c) (hc : n
     by_cases hlt : length < tokenSize
     · have hc32 : clip length = length := clip_of_lt hlt
       simp only [hlt, ↓reduceIte, slice_ok (rest.take (clip length)) 0 length (by omega) (by rw [List.length_take, hc32]; omega)]
-      refine ⟨_, rfl, h1, h2, ⟨?_, clip_le_31 length⟩, ?_, ?_⟩
+      refine ⟨_, rfl, h1, h2, ⟨?_, clip_le_31 length⟩, ?_, ?_, ?_⟩
       · show (rest.take (clip length)).length = clip length
         rw [List.length_take]; omega
       · show 0 + clip length ≤ length
         omega
       · show rest.take (clip length) = (rest.drop 0).take (clip length)
         simp
+      · -- the class is 'n' or the class of the whole word in the table
+        have hw : (((rest.take (clip length)).drop 0).take (length - 0)).length = length := by
+          simp [List.length_take, hc32]; omega
+        show CatV (if (searchKeyword (((rest.take (clip length)).drop 0).take (length - 0)) == 0) = true then 110
+                   else searchKeyword (((rest.take (clip length)).drop 0).take (length - 0))) (clip length)
+        rcases searchKeyword_cases (((rest.take (clip length)).drop 0).take (length - 0)) with h0 | ⟨hcl, hf, _⟩
+        · rw [h0]; exact catLit_ok (cat := 110) (by decide)
+        · split
+          · exact catLit_ok (cat := 110) (by decide)
+          · exact ⟨Or.inr hcl, fun h102 => by have := hf h102; rw [hw] at this; omega⟩
     · simp only [hlt, ↓reduceIte]
-      refine ⟨_, rfl, h1, h2, ⟨?_, clip_le_31 length⟩, ?_, ?_⟩
+      refine ⟨_, rfl, h1, h2, ⟨?_, clip_le_31 length⟩, ?_, ?_, catLit_ok (cat := 110) (by decide)⟩
       · show (rest.take (clip length)).length = clip length
         rw [List.length_take]; omega
       · show 0 + clip length ≤ length
@@ -188,7 +220,7 @@ theorem parseStringCore_lex (t : Token) (rest : Bytes) (offset : Nat) (d : UInt8
   | none =>
     have hc := clip_le (rest.length - offset)
     simp only [hq] at hspec
-    refine ⟨_, hspec, ⟨h1, Nat.le_refl _, ⟨?_, clip_le_31 _⟩, ?_, rfl⟩, rfl, rfl⟩
+    refine ⟨_, hspec, ⟨h1, Nat.le_refl _, ⟨?_, clip_le_31 _⟩, ?_, rfl, catLit_ok (cat := 115) (by decide)⟩, rfl, rfl⟩
     · show ((rest.drop offset).take (clip (rest.length - offset))).length = clip (rest.length - offset)
       rw [List.length_take, List.length_drop]; omega
     · show offset + clip (rest.length - offset) ≤ rest.length
@@ -198,7 +230,7 @@ theorem parseStringCore_lex (t : Token) (rest : Bytes) (offset : Nat) (d : UInt8
     rw [List.length_drop] at hlt
     have hc := clip_le q
     simp only [hq] at hspec
-    refine ⟨_, hspec, ⟨by show 1 ≤ offset + q + 1; omega, by show offset + q + 1 ≤ rest.length; omega, ⟨?_, clip_le_31 _⟩, ?_, rfl⟩, rfl, rfl⟩
+    refine ⟨_, hspec, ⟨by show 1 ≤ offset + q + 1; omega, by show offset + q + 1 ≤ rest.length; omega, ⟨?_, clip_le_31 _⟩, ?_, rfl, catLit_ok (cat := 115) (by decide)⟩, rfl, rfl⟩
     · show ((rest.drop offset).take (clip q)).length = clip q
       rw [List.length_take, List.length_drop]; omega
     · show offset + clip q ≤ offset + q + 1
@@ -206,17 +238,22 @@ theorem parseStringCore_lex (t : Token) (rest : Bytes) (offset : Nat) (d : UInt8
 
 /-- changing class, marks or count of the token keeps `LexOK` -/
 theorem LexOK.retag {rest : Bytes} {r : Lex} (h : LexOK rest r) (t' : Token)
-    (hp : t'.pos = r.tok.pos) (hl : t'.len = r.tok.len) (hv : t'.val = r.tok.val) (ddx hash : Nat) :
+    (hp : t'.pos = r.tok.pos) (hl : t'.len = r.tok.len) (hv : t'.val = r.tok.val) (ddx hash : Nat)
+    (hc : t'.cat = r.tok.cat ∨ CatOK t') :
     LexOK rest { tok := t', next := r.next, ddx := ddx, hash := hash } := by
-  obtain ⟨a1, a2, ⟨a3, a4⟩, a5, a6⟩ := h
-  exact ⟨a1, a2, ⟨by rw [hv, hl]; exact a3, by rw [hl]; exact a4⟩, by rw [hp, hl]; exact a5, by rw [hv, hp, hl]; exact a6⟩
+  obtain ⟨a1, a2, ⟨a3, a4⟩, a5, a6, a7⟩ := h
+  refine ⟨a1, a2, ⟨by rw [hv, hl]; exact a3, by rw [hl]; exact a4⟩, by rw [hp, hl]; exact a5, by rw [hv, hp, hl]; exact a6, ?_⟩
+  rcases hc with hc | hc
+  · show CatV t'.cat t'.len
+    rw [hc, hl]; exact a7
+  · exact hc
 
 theorem LexOK.shift {rest : Bytes} {p : Nat} {r : Lex} (hp : p ≤ rest.length) (h : LexOK (rest.drop p) r) :
     LexOK rest (shift r p) := by
-  obtain ⟨a1, a2, ⟨a3, a4⟩, a5, a6⟩ := h
+  obtain ⟨a1, a2, ⟨a3, a4⟩, a5, a6, a7⟩ := h
   rw [List.length_drop] at a2
   refine ⟨by show 1 ≤ r.next + p; omega, by show r.next + p ≤ rest.length; omega, ⟨a3, a4⟩,
-    by show r.tok.pos + p + r.tok.len ≤ r.next + p; omega, ?_⟩
+    by show r.tok.pos + p + r.tok.len ≤ r.next + p; omega, ?_, a7⟩
   show r.tok.val = (rest.drop (r.tok.pos + p)).take r.tok.len
   rw [a6, List.drop_drop]
   congr 1
@@ -240,7 +277,16 @@ theorem parseTick_ok (t : Token) (rest : Bytes) (h : rest ≠ []) : Lexes rest (
   obtain ⟨r, h1, h2, h3, _⟩ := parseStringCore_lex t rest 1 96 (by decide) (by omega) hl
   have hv : r.tok.val.length = r.tok.len := h2.2.2.1.1
   simp only [h1, bind, Except.bind, slice_ok r.tok.val 0 r.tok.len (by omega) (by omega), pure, Except.pure]
-  exact ⟨_, rfl, h2.retag _ rfl rfl rfl r.ddx r.hash⟩
+  refine ⟨_, rfl, h2.retag { r.tok with cat := if (searchKeyword ((r.tok.val.drop 0).take (r.tok.len - 0)) == 102) = true then 102 else 110 }
+    rfl rfl rfl r.ddx r.hash (Or.inr ?_)⟩
+  show CatV (if (searchKeyword ((r.tok.val.drop 0).take (r.tok.len - 0)) == 102) = true then 102 else 110) r.tok.len
+  split
+  · rename_i h102
+    have hw : ((r.tok.val.drop 0).take (r.tok.len - 0)).length = r.tok.len := by simp; omega
+    rcases searchKeyword_cases ((r.tok.val.drop 0).take (r.tok.len - 0)) with h0 | ⟨_, hf, _⟩
+    · rw [h0] at h102; simp at h102
+    · exact ⟨Or.inr (by decide), fun _ => by have := hf (by simpa using h102); omega⟩
+  · exact catLit_ok (cat := 110) (by decide)
 
 theorem parseEString_ok (rest : Bytes) (c : UInt8) (h0 : rest[0]? = some c) (hc : notWordAccept c = true) :
     Lexes rest (parseEString rest) := by
@@ -278,7 +324,7 @@ theorem parseUString_ok (rest : Bytes) (c : UInt8) (h0 : rest[0]? = some c) (hc 
     obtain ⟨r, h1, hok, _⟩ := parseString_ok {} (rest.drop 2) 39 hq (by decide)
     simp only [h1]
     have := LexOK.shift (p := 2) (by omega) hok
-    exact ⟨_, rfl, this.retag _ rfl rfl rfl (shift r 2).ddx (shift r 2).hash⟩
+    exact ⟨_, rfl, this.retag _ rfl rfl rfl (shift r 2).ddx (shift r 2).hash (Or.inl rfl)⟩
   · simp only [g, h2, decide_false, andM, toBool, bind, Except.bind, pure, Except.pure, Bool.false_eq_true, ↓reduceIte]
     exact parseWord_ok rest c h0 hc
 
@@ -352,7 +398,7 @@ theorem parseBackSlash_ok (rest : Bytes) (h : rest ≠ []) : Lexes rest (parseBa
     cases hb : rest[1] == 78 <;> simp only [hb, Bool.false_eq_true, ↓reduceIte]
     · simpa [bind, Except.bind, pure, Except.pure] using one_byte_ok 92 rest h
     · have := assign_lex {} 49 0 2 rest 2 (by omega) (by omega) (by omega) (by have := clip_le 2; omega)
-        (fun t' => { tok := t', next := 2 }) (fun t' => ⟨rfl, rfl, rfl, rfl⟩)
+        (fun t' => { tok := t', next := 2 }) (fun t' => ⟨rfl, rfl, rfl, rfl, rfl⟩) (catLit_ok (cat := 49) (by decide))
       simpa [bind, Except.bind, pure, Except.pure] using this
   · simp only [h1, decide_false, Bool.false_eq_true, ↓reduceIte]
     simpa [bind, Except.bind, pure, Except.pure] using one_byte_ok 92 rest h
@@ -363,20 +409,20 @@ theorem parseBWord_ok (rest : Bytes) (h : rest ≠ []) : Lexes rest (parseBWord 
   cases hi : indexByte rest 93 with
   | none =>
     have := assign_lex {} 110 0 rest.length rest rest.length (by omega) hl (Nat.le_refl _) (by have := clip_le rest.length; omega)
-      (fun t' => { tok := t', next := rest.length }) (fun t' => ⟨rfl, rfl, rfl, rfl⟩)
+      (fun t' => { tok := t', next := rest.length }) (fun t' => ⟨rfl, rfl, rfl, rfl, rfl⟩) (catLit_ok (cat := 110) (by decide))
     simpa [bind, Except.bind, pure, Except.pure] using this
   | some e =>
     have hlt := indexByte_lt hi
     have := assign_lex {} 110 0 (e + 1) rest (e + 1) (by omega) (by omega) (by omega) (by have := clip_le (e + 1); omega)
-      (fun t' => { tok := t', next := e + 1 }) (fun t' => ⟨rfl, rfl, rfl, rfl⟩)
+      (fun t' => { tok := t', next := e + 1 }) (fun t' => ⟨rfl, rfl, rfl, rfl, rfl⟩) (catLit_ok (cat := 110) (by decide))
     simpa [bind, Except.bind, pure, Except.pure] using this
 
 /-- generic closing step: a token of `length` bytes at offset 0, `next` bytes consumed -/
 theorem tok0_ok (cat : UInt8) (length next : Nat) (rest : Bytes) (h1 : length ≤ rest.length) (hn1 : 1 ≤ next)
-    (hn2 : next ≤ rest.length) (hn3 : clip length ≤ next) :
+    (hn2 : next ≤ rest.length) (hn3 : clip length ≤ next) (hcat : CatV cat (clip length) := by cat_lit) :
     Lexes rest (do return { tok := ← assign {} cat 0 length rest, next := next }) := by
   have := assign_lex {} cat 0 length rest next (by omega) hn1 hn2 (by omega)
-    (fun t' => { tok := t', next := next }) (fun t' => ⟨rfl, rfl, rfl, rfl⟩)
+    (fun t' => { tok := t', next := next }) (fun t' => ⟨rfl, rfl, rfl, rfl, rfl⟩) hcat
   simpa using this
 
 theorem isPrefix_length : ∀ (n l : Bytes), isPrefix n l = true → n.length ≤ l.length
@@ -401,14 +447,14 @@ theorem parseSlash_ok (rest : Bytes) (h : rest ≠ []) : Lexes rest (parseSlash 
       cases hi : indexOf (rest.drop 2) [42, 47] with
       | none =>
         simp only []
-        have fin : ∀ cat : UInt8, Lexes rest (do return { tok := ← assign {} cat 0 rest.length rest, next := rest.length }) :=
-          fun cat => tok0_ok cat rest.length rest.length rest (Nat.le_refl _) hl (Nat.le_refl _) (clip_le _)
+        have fin : ∀ cat : UInt8, CatLit cat → Lexes rest (do return { tok := ← assign {} cat 0 rest.length rest, next := rest.length }) :=
+          fun cat hcl => tok0_ok cat rest.length rest.length rest (Nat.le_refl _) hl (Nat.le_refl _) (clip_le _) (catLit_ok hcl)
         by_cases h2 : 2 < rest.length
         · simp only [h2, ↓reduceIte, at'_ok h2]
-          have := fin (if (rest[2] == 33) = true then 88 else 99)
+          have := fin (if (rest[2] == 33) = true then 88 else 99) (by split <;> decide)
           simpa [bind, Except.bind, pure, Except.pure] using this
         · simp only [h2, ↓reduceIte]
-          have := fin 99
+          have := fin 99 (by decide)
           simpa [bind, Except.bind, pure, Except.pure] using this
       | some i =>
         have hle := indexOf_le hi
@@ -420,13 +466,13 @@ theorem parseSlash_ok (rest : Bytes) (h : rest ≠ []) : Lexes rest (parseSlash 
         have h2 : 2 < rest.length := by omega
         simp only []
         rw [slice_ok rest 2 (2 + i + 1) (by omega) (by omega)]
-        have fin : ∀ cat : UInt8, Lexes rest (do return { tok := ← assign {} cat 0 (2 + i + 2) rest, next := 2 + i + 2 }) :=
-          fun cat => tok0_ok cat (2 + i + 2) (2 + i + 2) rest (by omega) (by omega) (by omega) (clip_le _)
+        have fin : ∀ cat : UInt8, CatLit cat → Lexes rest (do return { tok := ← assign {} cat 0 (2 + i + 2) rest, next := 2 + i + 2 }) :=
+          fun cat hcl => tok0_ok cat (2 + i + 2) (2 + i + 2) rest (by omega) (by omega) (by omega) (clip_le _) (catLit_ok hcl)
         by_cases hcn : contains ((rest.drop 2).take (2 + i + 1 - 2)) [47, 42] = true
         · simp only [hcn, ↓reduceIte]
-          simpa [bind, Except.bind, pure, Except.pure] using fin 88
+          simpa [bind, Except.bind, pure, Except.pure] using fin 88 (by decide)
         · simp only [hcn, Bool.false_eq_true, ↓reduceIte, h2, at'_ok h2]
-          have := fin (if (rest[2] == 33) = true then 88 else 99)
+          have := fin (if (rest[2] == 33) = true then 88 else 99) (by split <;> decide)
           simpa [bind, Except.bind, pure, Except.pure] using this
     · exact parseOperator1_ok rest h
 
@@ -448,7 +494,11 @@ theorem parseOperator2_ok (rest : Bytes) (h : rest ≠ []) : Lexes rest (parseOp
         else if (rest[0] == 58) = true then (do return { tok := ← assign {} 58 0 1 rest, next := 1 })
         else parseOperator1 rest) := by
       split
-      · exact tok0_ok _ 2 2 rest h2 (by omega) h2 (clip_le _)
+      · rename_i hsk
+        refine tok0_ok _ 2 2 rest h2 (by omega) h2 (clip_le _) ?_
+        rcases searchKeyword_cases ((rest.drop 0).take (2 - 0)) with h0 | ⟨hcl, _, _⟩
+        · rw [h0] at hsk; simp at hsk
+        · exact ⟨Or.inr hcl, fun _ => by decide⟩
       · split
         · exact one_byte_ok 58 rest h
         · exact parseOperator1_ok rest h
@@ -487,10 +537,10 @@ theorem parseXBString_ok (digits : Bytes) (rest : Bytes) (c : UInt8) (h0 : rest[
 
 /-- `assign` at an offset `p` of `rest` with the tail as value -/
 theorem tokp_ok (t : Token) (cat : UInt8) (p length next : Nat) (rest : Bytes) (h1 : p + length ≤ rest.length)
-    (hn1 : 1 ≤ next) (hn2 : next ≤ rest.length) (hn3 : p + clip length ≤ next) :
+    (hn1 : 1 ≤ next) (hn2 : next ≤ rest.length) (hn3 : p + clip length ≤ next) (hcat : CatV cat (clip length) := by cat_lit) :
     Lexes rest (do return { tok := ← assign t cat p length (rest.drop p), next := next }) := by
   have := assign_lex t cat p length rest next h1 hn1 hn2 hn3
-    (fun t' => { tok := t', next := next }) (fun t' => ⟨rfl, rfl, rfl, rfl⟩)
+    (fun t' => { tok := t', next := next }) (fun t' => ⟨rfl, rfl, rfl, rfl, rfl⟩) hcat
   simpa using this
 
 theorem parseVar_ok (rest : Bytes) (h : rest ≠ []) : Lexes rest (parseVar rest) := by
@@ -523,7 +573,7 @@ theorem parseVar_ok (rest : Bytes) (h : rest ≠ []) : Lexes rest (parseVar rest
       split
       · obtain ⟨r, h1, h2⟩ := parseTick_ok { count := count } (rest.drop p) hdne
         simp only [h1]
-        have h3 : LexOK (rest.drop p) { r with tok := { r.tok with cat := 118 } } := h2.retag _ rfl rfl rfl r.ddx r.hash
+        have h3 : LexOK (rest.drop p) { r with tok := { r.tok with cat := 118 } } := h2.retag { r.tok with cat := 118 } rfl rfl rfl r.ddx r.hash (Or.inr (show CatV 118 r.tok.len from catLit_ok (by decide)))
         exact ⟨_, rfl, LexOK.shift hp2 h3⟩
       · split
         · rename_i hq
@@ -532,7 +582,7 @@ theorem parseVar_ok (rest : Bytes) (h : rest ≠ []) : Lexes rest (parseVar rest
             intro h92; rw [h92] at hq; simp at hq
           obtain ⟨r, h1, h2, _⟩ := parseString_ok { count := count } (rest.drop p) rest[p] hq0 hne92
           simp only [h1]
-          have h3 : LexOK (rest.drop p) { r with tok := { r.tok with cat := 118 } } := h2.retag _ rfl rfl rfl r.ddx r.hash
+          have h3 : LexOK (rest.drop p) { r with tok := { r.tok with cat := 118 } } := h2.retag { r.tok with cat := 118 } rfl rfl rfl r.ddx r.hash (Or.inr (show CatV 118 r.tok.len from catLit_ok (by decide)))
           exact ⟨_, rfl, LexOK.shift hp2 h3⟩
         · have hs := spn_le notVarAccept (rest.drop p)
           rw [List.length_drop] at hs
@@ -582,7 +632,7 @@ theorem parseQStringCore_ok (rest : Bytes) (offset : Nat) (c : UInt8) (h0 : rest
               | ok t =>
                 simp only [ha, bind, Except.bind, pure, Except.pure, Except.ok.injEq] at hr
                 subst hr
-                exact ⟨_, rfl, hok.retag _ rfl rfl rfl 0 0⟩
+                exact ⟨_, rfl, hok.retag _ rfl rfl rfl 0 0 (Or.inl rfl)⟩
             | some i =>
               have hle := indexOf_le hi
               rw [List.length_drop] at hle
@@ -599,7 +649,7 @@ theorem parseQStringCore_ok (rest : Bytes) (offset : Nat) (c : UInt8) (h0 : rest
               | ok t =>
                 simp only [ha, bind, Except.bind, pure, Except.pure, Except.ok.injEq] at hr
                 subst hr
-                exact ⟨_, rfl, hok.retag _ rfl rfl rfl 0 0⟩
+                exact ⟨_, rfl, hok.retag _ rfl rfl rfl 0 0 (Or.inl rfl)⟩
         · exact word
 
 theorem parseNqString_ok (rest : Bytes) (c : UInt8) (h0 : rest[0]? = some c) (hc : notWordAccept c = true) :
@@ -618,17 +668,18 @@ theorem notWordAccept_36 : notWordAccept 36 = true := by decide
 
 /-- re-tag the token of a successful `assign … ; return {tok := {t with …}, next}` step -/
 theorem tokp_retag_ok (cat : UInt8) (p length next : Nat) (rest : Bytes) (f : Token → Token)
-    (hf : ∀ t, (f t).pos = t.pos ∧ (f t).len = t.len ∧ (f t).val = t.val)
-    (h1 : p + length ≤ rest.length) (hn1 : 1 ≤ next) (hn2 : next ≤ rest.length) (hn3 : p + clip length ≤ next) :
+    (hf : ∀ t, (f t).pos = t.pos ∧ (f t).len = t.len ∧ (f t).val = t.val ∧ (f t).cat = t.cat)
+    (h1 : p + length ≤ rest.length) (hn1 : 1 ≤ next) (hn2 : next ≤ rest.length) (hn3 : p + clip length ≤ next)
+    (hcat : CatV cat (clip length) := by cat_lit) :
     Lexes rest (do let t ← assign {} cat p length (rest.drop p); return { tok := f t, next := next }) := by
-  obtain ⟨r, hr, hok⟩ := tokp_ok {} cat p length next rest h1 hn1 hn2 hn3
+  obtain ⟨r, hr, hok⟩ := tokp_ok {} cat p length next rest h1 hn1 hn2 hn3 hcat
   cases ha : assign {} cat p length (rest.drop p) with
   | error e => simp [ha, bind, Except.bind] at hr
   | ok t =>
     simp only [ha, bind, Except.bind, pure, Except.pure, Except.ok.injEq] at hr ⊢
     subst hr
-    obtain ⟨f1, f2, f3⟩ := hf t
-    exact ⟨_, rfl, hok.retag _ f1 f2 f3 0 0⟩
+    obtain ⟨f1, f2, f3, f4⟩ := hf t
+    exact ⟨_, rfl, hok.retag _ f1 f2 f3 0 0 (Or.inl f4)⟩
 
 theorem parseMoney_ok (rest : Bytes) (h0 : rest[0]? = some 36) : Lexes rest (parseMoney rest) := by
   have hl := first_lt h0
@@ -655,7 +706,7 @@ theorem parseMoney_ok (rest : Bytes) (h0 : rest[0]? = some 36) : Lexes rest (par
         | none =>
           simp only []
           have := tokp_retag_ok 115 2 (rest.length - 2) rest.length rest (fun t => { t with strOpen := 36, strClose := 0 })
-            (fun t => ⟨rfl, rfl, rfl⟩) (by omega) (by omega) (Nat.le_refl _) (by have := clip_le (rest.length - 2); omega)
+            (fun t => ⟨rfl, rfl, rfl, rfl⟩) (by omega) (by omega) (Nat.le_refl _) (by have := clip_le (rest.length - 2); omega)
           simpa [bind, Except.bind, pure, Except.pure] using this
         | some i =>
           have hpre := ((indexOf_some_iff _ _ _).mp hi).2.1
@@ -665,7 +716,7 @@ theorem parseMoney_ok (rest : Bytes) (h0 : rest[0]? = some 36) : Lexes rest (par
             simp at this hle; omega
           simp only []
           have := tokp_retag_ok 115 2 i (2 + i + 2) rest (fun t => { t with strOpen := 36, strClose := 36 })
-            (fun t => ⟨rfl, rfl, rfl⟩) (by omega) (by omega) (by omega) (by have := clip_le i; omega)
+            (fun t => ⟨rfl, rfl, rfl, rfl⟩) (by omega) (by omega) (by omega) (by have := clip_le i; omega)
           simpa [bind, Except.bind, pure, Except.pure] using this
       · have hx := spn_le isLetter (rest.drop 1)
         rw [List.length_drop] at hx
@@ -685,7 +736,7 @@ theorem parseMoney_ok (rest : Bytes) (h0 : rest[0]? = some 36) : Lexes rest (par
               | none =>
                 simp only []
                 have := tokp_retag_ok 115 (xlen + 2) (rest.length - xlen - 2) rest.length rest (fun t => { t with strOpen := 36, strClose := 0 })
-                  (fun t => ⟨rfl, rfl, rfl⟩) (by omega) (by omega) (Nat.le_refl _) (by have := clip_le (rest.length - xlen - 2); omega)
+                  (fun t => ⟨rfl, rfl, rfl, rfl⟩) (by omega) (by omega) (Nat.le_refl _) (by have := clip_le (rest.length - xlen - 2); omega)
                 simpa [bind, Except.bind, pure, Except.pure] using this
               | some i =>
                 have hpre := ((indexOf_some_iff _ _ _).mp hi).2.1
@@ -695,7 +746,7 @@ theorem parseMoney_ok (rest : Bytes) (h0 : rest[0]? = some 36) : Lexes rest (par
                   simp at this hle; omega
                 simp only []
                 have := tokp_retag_ok 115 (xlen + 2) i (xlen + 2 + i + xlen + 2) rest (fun t => { t with strOpen := 36, strClose := 36 })
-                  (fun t => ⟨rfl, rfl, rfl⟩) (by omega) (by omega) (by omega) (by have := clip_le i; omega)
+                  (fun t => ⟨rfl, rfl, rfl, rfl⟩) (by omega) (by omega) (by omega) (by have := clip_le i; omega)
                 simpa [bind, Except.bind, pure, Except.pure] using this
             · simpa [bind, Except.bind, pure, Except.pure] using dollar1
     · simp only [hz, Bool.false_eq_true, ↓reduceIte, g, andM, toBool, byteIs, bind, Except.bind, pure, Except.pure]
@@ -871,6 +922,7 @@ def dispatchFact (c : UInt8) : Bool :=
   | .word | .ustring | .qstring | .nqstring | .xstring | .bstring | .estring => notWordAccept c
   | .number => isDigit c || c == 46
   | .unknown => false
+  | .byte => isClassU8 c && c != 102
   | _ => true
 
 /-- table fact, re-checked against the regenerated dispatch table on every build -/
@@ -892,7 +944,11 @@ theorem runP_ok (flags : Nat) (rest : Bytes) (c : UInt8) (h0 : rest[0]? = some c
   case op1 => exact parseOperator1_ok rest hne
   case op2 => exact parseOperator2_ok rest hne
   case other => exact parseOther_ok rest hne
-  case byte => exact parseByte_ok rest hne
+  case byte =>
+    have hcl : CatLit c := by
+      simp only [Bool.and_eq_true, bne_iff_ne, ne_eq] at hf
+      exact ⟨Or.inr hf.1, hf.2⟩
+    exact parseByte_ok rest c h0 hcl
   case hash => have : c = 35 := by simpa using hf
                subst this; exact parseHash_ok flags rest h0
   case dash => have : c = 45 := by simpa using hf
